@@ -6,11 +6,23 @@ From Coq Require Import Lia.
 
 (* ------------------------------------------------------------------ K1 *)
 
+(* the two index deletions an insert adds to its batch when it overwrites a frame stored under
+   other keys (same id, another context or topic) *)
+Definition drop_muts (p : parts) (f : frame) : batch :=
+  match kv_get (skey (f_id f)) (p_stream p) with
+  | Some old => if same_keys old f then [] else [MDelT (tkey old); MDelC (ckey old)]
+  | None => []
+  end.
+
 Lemma insert_parts : forall s f, has_nul (f_topic f) = false ->
   parts_of (snd (insert_frame s f))
-  = apply_batch (parts_of s) [MPutS (skey (f_id f)) f; MPutT (tkey f); MPutC (ckey f)].
+  = apply_batch (parts_of s)
+      (drop_muts (parts_of s) f ++ [MPutS (skey (f_id f)) f; MPutT (tkey f); MPutC (ckey f)]).
 Proof.
-  intros s f Hnul. unfold insert_frame, insert_frame_gen. rewrite Hnul. reflexivity.
+  intros s f Hnul. unfold insert_frame, insert_frame_gen, drop_old, get, drop_muts.
+  rewrite Hnul. cbn [parts_of p_stream].
+  destruct (kv_get (skey (f_id f)) (s_stream s)) as [old|]; [|reflexivity].
+  destruct (same_keys old f); reflexivity.
 Qed.
 
 Lemma insert_frame_batch : forall s f,
@@ -22,7 +34,7 @@ Lemma insert_frame_batch : forall s f,
 Proof.
   intros s f. unfold batch_of. destruct (has_nul (f_topic f)) eqn:Hnul.
   - unfold insert_frame, insert_frame_gen. rewrite Hnul. reflexivity.
-  - apply insert_parts. exact Hnul.
+  - rewrite (insert_parts s f Hnul). reflexivity.
 Qed.
 
 Lemma remove_batch : forall s i,
